@@ -956,6 +956,12 @@ fn configure_build(
                 };
 
                 let out = srcpath.with_extension(out_ext);
+                // pushing an absolute path would replace the object directory, and with it
+                // the builder/app directories that keep non-shareable objects apart
+                let out = match out.strip_prefix("/") {
+                    Ok(relative) => relative.to_path_buf(),
+                    Err(_) => out,
+                };
 
                 let mut object = objdir.clone();
                 if !rule.shareable {
